@@ -1,5 +1,6 @@
 # False positive. The cycle exists but is avoided by importing last.
 # pylint: disable=cyclic-import
+import copy
 from typing import Any, cast, Dict, List, Generic, TypeVar, Union
 
 from statham.schema.constants import NotPassed, Maybe
@@ -288,10 +289,12 @@ class Element(Generic[T]):
         if not isinstance(self.default, NotPassed) and isinstance(
             value, NotPassed
         ):
+            # Work on a copy: whatever is returned belongs to the caller.
+            default = copy.deepcopy(self.default)
             try:
-                return create(self.default)
+                return create(default)
             except (TypeError, ValidationError):
-                return self.default
+                return default
         if isinstance(value, NotPassed):
             return value
         return create(value)
